@@ -57,6 +57,12 @@ def run_case(case, opts):
         """one call of `agent` (its first parameter), chosen among the library-applicable ones when asked"""
         cands = []
         for name, params in acts:
+            if not params:
+                if agent is None:
+                    cands.append((name, []))
+                continue
+            if agent is None:
+                continue
             for _ in range(4):
                 args = [agent] + [rng.choice([o for o, t in objs if t == ty]) for _, ty in params[1:]]
                 cands.append((name, args))
@@ -69,13 +75,13 @@ def run_case(case, opts):
                 except Exception:  # noqa: BLE001
                     pass
             return None
-        return cands[0]
+        return cands[0] if cands else None
 
     def joint_for(state, p_app=0.85):
         members = []
         for ag in agents:
             r = rng.random()
-            c = None if r < 0.3 else calls_of(ag, state, rng.random() < p_app)
+            c = None if r < 0.3 else calls_of(ag if r < 0.9 else None, state, rng.random() < p_app)
             members.append(["nop", []] if c is None else [c[0], c[1]])
         if all(m[0] == "nop" for m in members):
             c = calls_of(agents[0], state, True)
